@@ -41,7 +41,7 @@ CLAIMS.update({
  'C06': dict(text="Coq theorems over the export as GENERATED from convert_to_segy (spec fields, operation order, index expressions, format-code bytes, header overrides): trace i of the SEG-Y is get_trace(i) for regular, irregular and 2D files (order preserved); header i is the regenerated header with DelayRecordingTime from the first sample; the 3600 header bytes are the stored ones whatever segyio wrote before (overwrite-last lemma); spec axes are the SGZ axes; format code choice; the export neither depends on nor changes the converter object's state (C06a: header arrays reloaded after a padding-mode switch, header bytes restored). Partial: segyio's numerics (IEEE exact / IBM 2^-20) are a validated assumption; known findings D34 (extended textual headers), D35 (delay scaled by trace scalar).",
              note="segyio is a validated hand model; numeric clause checked on every sample, not proved",
              technique="Coq proof over generated export plan + byte-level correspondence + segyio round-trip oracle"),
- 'C10': dict(text="Coq theorems for every well-formed source header and every box, over the cropper as GENERATED from cropping.py: exactly the out-of-range / empty / inverted / unsupported requests raise IndexError before the output is opened; a served crop is the request widened to block boundaries and clipped; every padded output voxel has the provenance of the corresponding source voxel (unit bytes copied from the specification position); the regenerated header states the box, is well-formed and describes the bytes that follow; footer entry (i,x) is source entry (i+i0,x+x0) with the stride the reader derives. Known finding D7h (start time stored as whole ms).",
+ 'C10': dict(text="Coq theorems for every well-formed source header and every box, over the cropper as GENERATED from cropping.py: exactly the out-of-range / empty / inverted / unsupported requests raise IndexError before the output is opened; a served crop is the request widened to block boundaries and clipped; every padded output voxel has the provenance of the corresponding source voxel (unit bytes copied from the specification position); the regenerated header states the box, is well-formed and describes the bytes that follow; footer entry (i,x) is source entry (i+i0,x+x0) with the stride the reader derives; for a ZGY-sourced file (double interval at 92:100 non-zero) the double start at 84:92 becomes exactly the source's sample coordinate at the crop start and the interval is kept, so the GENERATED reader's sample axis of the cropped file starts there (element k equal to the source's element z0+k over the rationals; bit equality is refuted with a binary64 witness). Known finding D7h (integer start time stored as whole ms).",
              note="decoded floats abstract; numpy reshape/slice indexing and struct.pack ranges hand-modelled",
              technique="Coq proof over generated cropper + correspondence of output bytes + restriction oracle"),
  'C15': dict(text="Coq theorems by induction over ANY history (any number of readers, emulators, opens/closes, any chunk-cache capacity >= 1, preload on/off): every cached value equals the pure function of its key (invariant), so the results of a history equal those of a memory-less machine; LRU tables never exceed capacity nor hold duplicate keys; seek-then-read makes the shared handle position irrelevant. Cache tables, keys (all start with self), clear lists and the attribute analysis of cached bodies are GENERATED from loader.py/read.py. C15a: over a static census, GENERATED from the source, of every attribute, class attribute, module global and shared default that each method of the 23 classes can write (transitively through the call graph), every public method writes only cache state covered by the soundness invariant or a listed exception with its evidence; hence for any finite sequence of public calls the non-cache state is what the constructor left (induction), and a result can depend on the history only through the caches; refuted-witness theorems for D45-D47.",
